@@ -24,6 +24,10 @@ type c09session struct {
 	client func(x *vexp.Ctx, w *vWide, r *c09rec)
 	// handler is the server side
 	handler func(r *c09rec) Handler
+	// bounds overrides the common bounds (nil: common)
+	bounds func(thorough bool) vexp.Bounds
+	// every: use every n-th byte offset only (0/1: every offset)
+	every int
 }
 
 type c09rec struct {
@@ -85,8 +89,8 @@ func c09sessions() []c09session {
 		}
 	}
 	return []c09session{
-		{"F1.handshake-and-open", map[string]int{}, "handshake, then the client opens a channel and sends one message; the handler only waits for its context",
-			func(x *vexp.Ctx, w *vWide, r *c09rec) {
+		{name: "F1.handshake-and-open", params: map[string]int{}, doc: "handshake, then the client opens a channel and sends one message; the handler only waits for its context",
+			client: func(x *vexp.Ctx, w *vWide, r *c09rec) {
 				ctx := async.NoContext()
 				ch, st := w.cli.Channel(ctx)
 				if !r.call("Channel", st).OK() {
@@ -98,7 +102,7 @@ func c09sessions() []c09session {
 				_, st = ch.Receive(ctx) // blocks until the channel or the connection ends
 				r.call("Receive", st)
 			},
-			func(r *c09rec) Handler {
+			handler: func(r *c09rec) Handler {
 				return HandleFunc(func(ctx Context, ch Channel) status.Status {
 					r.handlers++
 					defer func() { r.exits++ }()
@@ -107,9 +111,9 @@ func c09sessions() []c09session {
 					return ctx.Status()
 				})
 			}},
-		{"F2.echo", map[string]int{}, "handshake + two echo round trips", echoClient(2, 7), echoHandler},
-		{"F3.blocked-on-window", map[string]int{"window": 4}, "window 4: the second Send blocks on the closed window (the handler never reads) when the fault hits",
-			func(x *vexp.Ctx, w *vWide, r *c09rec) {
+		{name: "F2.echo", params: map[string]int{}, doc: "handshake + two echo round trips", client: echoClient(2, 7), handler: echoHandler},
+		{name: "F3.blocked-on-window", params: map[string]int{"window": 4}, doc: "window 4: the second Send blocks on the closed window (the handler never reads) when the fault hits",
+			client: func(x *vexp.Ctx, w *vWide, r *c09rec) {
 				ctx := async.NoContext()
 				ch, st := w.cli.Channel(ctx)
 				if !r.call("Channel", st).OK() {
@@ -122,7 +126,7 @@ func c09sessions() []c09session {
 				}
 				r.call("Send", ch.Send(ctx, r.send(vPayload(0, 0, 1, 4)))) // must not hang forever
 			},
-			func(r *c09rec) Handler {
+			handler: func(r *c09rec) Handler {
 				return HandleFunc(func(ctx Context, ch Channel) status.Status {
 					r.handlers++
 					defer func() { r.exits++ }()
@@ -131,9 +135,52 @@ func c09sessions() []c09session {
 					return ctx.Status()
 				})
 			}},
-		{"F4.blocked-on-write-queue", map[string]int{"writeq": 16, "wbuf": 16, "rbuf": 16}, "write queue of 16 bytes: a 200-byte message waits for queue space while frames trickle out", echoClient(1, 200), echoHandler},
-		{"F6.compressed", map[string]int{"compress": 1}, "negotiated lz4 stream, one echo round trip", echoClient(1, 40), echoHandler},
-		{"F7.large-frame", map[string]int{"rbuf": 16, "wbuf": 16}, "one 100-byte message through 16-byte buffers (frame spans many reads/writes)", echoClient(1, 100), echoHandler},
+		{name: "F4.blocked-on-write-queue", params: map[string]int{"writeq": 16, "wbuf": 16, "rbuf": 16}, doc: "write queue of 16 bytes: a 200-byte message waits for queue space while frames trickle out", client: echoClient(1, 200), handler: echoHandler},
+		{name: "F6.compressed", params: map[string]int{"compress": 1}, doc: "negotiated lz4 stream, one echo round trip", client: echoClient(1, 40), handler: echoHandler},
+		{name: "F7.large-frame", params: map[string]int{"rbuf": 16, "wbuf": 16}, doc: "one 100-byte message through 16-byte buffers (frame spans many reads/writes)", client: echoClient(1, 100), handler: echoHandler},
+		{name: "F10.open-racing-with-teardown", params: map[string]int{}, doc: "a channel is open and its caller blocked in Receive; a second caller calls Channel() the moment the connection is marked closed, i.e. WHILE the connection tears its channels down (preemption bound 1 also in the quick tier; every 3rd byte offset): the call fails, or the channel it returns is cancelled like all others",
+			client: func(x *vexp.Ctx, w *vWide, r *c09rec) {
+				ctx := async.NoContext()
+				ch, st := w.cli.Channel(ctx)
+				if !r.call("Channel", st).OK() {
+					return
+				}
+				defer ch.Free()
+				r.ctxs = append(r.ctxs, ch.Context())
+				oDone := false
+				vsched.GoNamed("opener", func() {
+					defer func() { oDone = true }()
+					vsched.Join("connection marked closed", func() bool { return w.cli.closed.IsSet() })
+					ch2, st := w.cli.Channel(ctx)
+					if !st.OK() {
+						return
+					}
+					defer ch2.Free()
+					r.ctxs = append(r.ctxs, ch2.Context())
+					_, st = ch2.Receive(ctx) // nobody will ever send: must end with the connection
+					r.call("late-Receive", st)
+				})
+				r.call("Send", ch.Send(ctx, r.send([]byte("hello"))))
+				_, st = ch.Receive(ctx)
+				r.call("Receive", st)
+				vsched.Join("opener returned", func() bool { return oDone })
+			},
+			handler: func(r *c09rec) Handler {
+				return HandleFunc(func(ctx Context, ch Channel) status.Status {
+					r.handlers++
+					defer func() { r.exits++ }()
+					r.ctxs = append(r.ctxs, ctx)
+					vsched.Recv(ctx.Wait())
+					return ctx.Status()
+				})
+			},
+			bounds: func(thorough bool) vexp.Bounds {
+				if thorough {
+					return vexp.Bounds{P: 2, F: 0, E: 0}
+				}
+				return vexp.Bounds{P: 1, F: 0, E: 0}
+			},
+			every: 3},
 	}
 }
 
@@ -471,8 +518,11 @@ func init() {
 		sess := sess
 		vexp.Register(&vexp.Scenario{
 			Name: "c09." + sess.name, Prop: "C09", MaxSteps: 200000,
-			Doc: sess.doc + "; fault at EVERY byte offset of each direction x {cut, half-close}",
+			Doc: sess.doc + "; fault at EVERY byte offset of each direction x {cut, half-close} (sessions with a stride say so)",
 			Bounds: func(thorough bool) vexp.Bounds {
+				if sess.bounds != nil {
+					return sess.bounds(thorough)
+				}
 				if thorough {
 					return vexp.Bounds{P: 1, F: 0, E: 0}
 				}
@@ -486,6 +536,9 @@ func init() {
 				var out []map[string]int
 				for dir := 0; dir < 2; dir++ {
 					for k := int64(0); k < L[dir]; k++ {
+						if sess.every > 1 && !thorough && k%int64(sess.every) != 0 {
+							continue
+						}
 						for mode := 0; mode < 2; mode++ {
 							out = append(out, map[string]int{"dir": dir, "k": int(k), "mode": mode})
 						}
